@@ -266,7 +266,16 @@ func simRandNext() uint64 {
 	// goroutine that completes 256 selects in a row without ever blocking takes a 1 µs virtual nap
 	// (a durable block in the bubble, so the clock can move and its peers can run): a deterministic
 	// stand-in for "the spinner eventually loses the CPU".
+	// A goroutine blocked on sync.Mutex / RWMutex / Once is "not durably blocked" for synctest, because
+	// the holder might live outside the bubble. In our bubbles every holder is inside, and several
+	// code paths hold such a lock across (simulated) storage I/O (sharediterator's sync.Once around the
+	// open call, cachedIterator.Next, combinedIterator): a contended lock would stop the fake clock
+	// for ever (DESIGN §1.3, probe 5). Declaring these waits idle is the runtime-level equivalent of
+	// swapping the primitives for channel-based twins.
 	src, dst = patch("runtime/runtime2.go", [][2]string{{
+		"\twaitReasonSyncCondWait:          true,\n\twaitReasonSynctestWaitGroupWait: true,\n",
+		"\twaitReasonSyncCondWait:          true,\n\twaitReasonSyncMutexLock:         true,\n\twaitReasonSyncRWMutexRLock:      true,\n\twaitReasonSyncRWMutexLock:       true,\n\twaitReasonSynctestWaitGroupWait: true,\n",
+	}, {
 		"\tvalgrindStackID uintptr\n}\n",
 		"\tvalgrindStackID uintptr\n\n\tsimspin uint32 // verification overlay: consecutive non-blocking selects\n}\n",
 	}}, "")
